@@ -198,14 +198,21 @@ extern int mpt_axis_set(MPT_STRUCT(axis) *ax, const char *name, MPT_INTERFACE(co
 			ax->format &= ~MPT_ENUM(TransformLg);
 			ax->intv = 0;
 		}
-		if (len >= 0 || (len = src->_vptr->convert(src, 's', &l)) < 0 || len < 0 || !l) {
+		if (len >= 0) {
+			ax->format &= ~MPT_ENUM(TransformLg);
+		}
+		/* not a number: refused values leave the axis unchanged */
+		else if ((len = src->_vptr->convert(src, 's', &l)) < 0) {
+			return len;
+		}
+		else if (!len || !l) {
 			ax->format &= ~MPT_ENUM(TransformLg);
 		}
 		else if (!strncasecmp(l, "log", 3)) {
 			ax->format |= MPT_ENUM(TransformLg);
 			ax->intv = 0;
 		}
-		return len < 0 ? len : 0;
+		return 0;
 	}
 	if (!strcasecmp(name, "exp") || !strcasecmp(name, "exponent")) {
 		if (!src || !(len = src->_vptr->convert(src, 'n', &ax->exp))) {
